@@ -32,6 +32,9 @@ RULE = ("seq: random single-client histories (5-40 ops) over counter/gauge/histo
         "looping emit-by-tuple, spin barrier before every iteration, repeated on fresh metrics for a time budget; at quiescence "
         "every handle ever handed out emits once more and the conservation monitor must report 0 orphans / 0 lost / no overcap / "
         "no drift (decided by the theorems for all programs and schedules, no exploration). "
+        "bulk/rbulk: a metric of each kind registered with MaxSeriesPerMetric left at 0 (default 10000), explicit, or negative "
+        "(unbounded), 10400 distinct tuples resolved and emitted to by 1 or 4 goroutines: series <= effective cap, seriesCount = "
+        "series, every emission in its series or a cardinality drop. "
         "Non-trivial: seq case with a series, and a tombstone, unregister, or drop; conc case with >= 2 distinct observations.")
 TRUSTED = ["sync/atomic sequentially consistent, sync.Map Load/LoadOrStore/Delete/CompareAndDelete linearizable (each call = one atomic step of the model)",
            "histogram Observe (3 atomic updates + CAS loop) and gauge Add (CAS loop) are modelled as one atomic update at their linearization point",
@@ -70,7 +73,7 @@ def gen_seq(rng, long=False):
     nl = rng.choice([0, 1, 1, 2, 2, 2, 3])
     bk = "-"
     if kind == "h":
-        bk = rng.choice(["1,5,10", "0", "1,1,2", "-3,0,3", "5"])
+        bk = rng.choice(["1,5,10", "0", "1,1,2", "-3,0,3", "5", "-", "-"])      # "-" = Buckets omitted: defaults
     pool = POOL[nl]
     if rng.random() < 0.5:
         pool = rng.sample(pool, min(len(pool), rng.randint(1, 4)))
@@ -264,11 +267,21 @@ def gen_cases(rng, tier, budget):
             cases.append("churn %s %d %d %d %d %d %d %d" % (kind, rng.choice([1, 2, -1]), ms, rng.choice([10, 40, 200]),
                                                              rng.randint(2, 4), rng.randint(1, 3), rng.randint(0, 2), rng.randint(0, 1)))
     cases.append("rchurn h 2 %d 40 2 2 1 0" % ms)
+    # default configuration: cap left at its zero value (=> DefaultMaxSeriesPerMetric 10000) driven past the default,
+    # sequentially and from 4 goroutines, for all three kinds; plus explicit small and negative (unbounded) caps
+    for kind in "cgh":
+        cases.append("bulk %s 0 10400 1" % kind)
+        cases.append("bulk %s 0 10400 4" % kind)
+    cases += ["bulk c 7 60 3", "bulk g 1 40 4", "bulk h -1 10300 2", "bulk g -5 300 1", "rbulk g 0 10200 4"]
+    if not quick:
+        for _ in range(12):
+            cases.append("bulk %s %d %d %d" % (rng.choice("cgh"), rng.choice([0, 0, 1, 3, 50, 9999, 10000, 10001, -1]),
+                                                 rng.choice([1, 5, 9999, 10000, 10001, 10400, 12000]), rng.randint(1, 6)))
     return cases
 
 
 def route(case):
-    return "telemetry_race" if case.startswith(("rconc", "rreg", "rchurn")) else "telemetry"
+    return "telemetry_race" if case.startswith(("rconc", "rreg", "rchurn", "rbulk")) else "telemetry"
 
 
 # ---------------------------------------------------------------- monitor (same clauses as the OCaml driver)
@@ -332,7 +345,7 @@ def rejected(model_line):
 def nontrivial(case, out):
     if out in ("hang", "skipped-after-hang"):
         return False
-    if case.startswith(("churn", "rchurn")):
+    if case.startswith(("churn", "rchurn", "bulk", "rbulk")):
         return True
     if case.startswith("seq"):
         toks = out.split()
@@ -345,6 +358,11 @@ def classify(case, impl, model):
         return "P", "harness watchdog fired: an emitter, the tick or a subscriber blocked (non-blocking clause)"
     if impl.strip() == "skipped-after-hang":
         return "G", "not run: an earlier case of the batch hung"
+    if case.startswith(("bulk", "rbulk")):
+        t = case.split()
+        return "P", ("metric registered with MaxSeriesPerMetric=%s (0 = omitted => default 10000), %s distinct tuples from %s "
+                     "goroutine(s): observed %r, the theorems allow %r (series <= cap, seriesCount = series, every emission in its "
+                     "series or a cardinality drop)" % (t[2], t[3], t[4], impl, model))
     if case.startswith(("churn", "rchurn")):
         bad = [x for x in impl.split()[1:] if not x.endswith("=0")]
         return "P", ("unregister/re-create/emit churn on one tuple: conservation monitor reports %s "
@@ -374,6 +392,14 @@ def signature(case, impl, models):
 
 def shrink(case):
     t = case.split()
+    if t[0] in ("bulk", "rbulk"):
+        n, g = int(t[3]), int(t[4])
+        if g > 1:
+            yield " ".join(t[:4] + ["1"])
+        for m in (n // 2, n - 100, n - 1):
+            if 0 < m < n:
+                yield " ".join(t[:3] + [str(m), t[4]])
+        return
     if t[0] in ("churn", "rchurn"):
         for i in (5, 6, 7):                    # fewer unregisterers / creators / emitters
             if int(t[i]) > (1 if i < 7 else 0):
@@ -427,7 +453,7 @@ def distribution(cases, impl):
     for c, o in zip(cases, impl):
         t = c.split()
         d[t[0]] = d.get(t[0], 0) + 1
-        if t[0] in ("churn", "rchurn"):
+        if t[0] in ("churn", "rchurn", "bulk", "rbulk"):
             continue
         if t[0] in ("reg", "rreg"):
             obs = conc_obs(o or "")
